@@ -74,6 +74,11 @@ type PFCPConn struct {
 
 	pendingReqs sync.Map
 
+	// assocMu guards nodeID.remote and ts.remote: the answer to an Association Setup
+	// Request of ours is handled by the goroutine that sent the request, every other
+	// message by the receive goroutine, which reads the remote Node ID for each of them.
+	assocMu sync.RWMutex
+
 	// sessMu serializes the handling of session-level messages with the session cleanup of
 	// the teardown, which may run in another goroutine (heartbeat failure, node stop).
 	sessMu sync.Mutex
@@ -175,6 +180,13 @@ func (node *PFCPNode) NewPFCPConn(lAddr, rAddr string, buf []byte) *PFCPConn {
 	go p.Serve()
 
 	return p
+}
+
+func (pConn *PFCPConn) remoteNodeID() string {
+	pConn.assocMu.RLock()
+	defer pConn.assocMu.RUnlock()
+
+	return pConn.nodeID.remote
 }
 
 func (pConn *PFCPConn) setLocalNodeID(id string) {
